@@ -330,6 +330,20 @@ pub fn gen_w1(seed: u64, mix: Mix, faults: Faults) -> W1Script {
     let ctor = draw_ctor(&mut cfg, fallible_only);
 
     let mut ops = Vec::with_capacity(n_ops);
+    // swarm prefix: a small limit on a still-empty arena, optionally followed by a zero-sized
+    // or tiny request (selects the small-limit bypass of the minimum chunk size)
+    if uniform.is_none() && mix != Mix::NoLimitWithPulses && cfg.chance(1, 6) {
+        ops.push(Op::SetLimit(LimitSpec::Abs(*cfg.pick(&[0usize, 1, 10, 63, 64, 100, 300, 447]))));
+        if cfg.chance(2, 3) {
+            let size = *cfg.pick(&[0usize, 0, 1, 8, 60, 100]);
+            ops.push(Op::Layout {
+                try_: fallible_only || cfg.chance(1, 2),
+                size,
+                align: 1 << cfg.below(13),
+                seed: 7,
+            });
+        }
+    }
     let mut depth = 0;
     gen_ops(&mut r, &w, n_ops, &mut ops, &mut depth, &GenCfg {
         min_align,
